@@ -117,6 +117,13 @@ def check_ro(ro, viol):
             viol.append(('C15', '%s raised %s: %s' % (name, type(e).__name__, e)))
             return False, None
 
+    for name, fn, exp in (('ro.ro_id', lambda: ro.ro_id, base.find('roID').text if base.find('roID') is not None else None),
+                          ('ro.ro_slug', lambda: ro.ro_slug, base.find('roSlug').text if base.find('roSlug') is not None else None),
+                          ('ro.message_id', lambda: ro.message_id, int(ro.xml.find('messageID').text)),
+                          ('ro.base_tag', lambda: ro.base_tag, base)):
+        o0, v0 = acc(name, fn)
+        if o0 and not (v0 is exp if name == 'ro.base_tag' else v0 == exp):
+            viol.append(('C15', '%s is %r, the XML says %r' % (name, v0, exp)))
     ok, stories = acc('ro.stories', lambda: ro.stories)
     es = base.find('roEdStart')
     ro_start = dtparse(es.text) if es is not None and es.text is not None else None
@@ -358,6 +365,11 @@ def c04_cases():
     body = '<storyBody>lead<p>a</p><storyItem q="1"><itemID>s1</itemID><storyItem><itemID>nested</itemID></storyItem></storyItem>t1<p>(n)</p><storyItem><itemID>s2</itemID></storyItem></storyBody>'
     for layout in ('%(id)s%(slug)s%(body)s%(md)s', '%(id)s%(body)s%(slug)s%(md)s', '%(body)s%(id)s%(slug)s%(md)s', '%(id)s%(slug)s%(md)s%(body)s'):
         inner = layout % dict(id='<storyID>B</storyID>', slug='<storySlug>re</storySlug>', body=body, md=RICH)
+        yield 'StorySend', base, ENV % (5, '<roStorySend>%s%s</roStorySend>' % (R, inner)), ('send', 'B')
+    # empty / whitespace-only / single-child story bodies (storyBody itself is a required tag of roStorySend: schema shape)
+    for b2 in ('<storyBody/>', '<storyBody></storyBody>', '<storyBody>  \n </storyBody>', '<storyBody><p>only</p></storyBody>',
+               '<storyBody><storyItem><itemID>s1</itemID></storyItem></storyBody>'):
+        inner = '<storyID>B</storyID><storySlug>re</storySlug>%s%s' % (b2, RICH)
         yield 'StorySend', base, ENV % (5, '<roStorySend>%s%s</roStorySend>' % (R, inner)), ('send', 'B')
     yield 'RunningOrderReplace', base, ENV % (5, '<roReplace>%s<roSlug>new</roSlug>%s%s</roReplace>' % (R, rich_story('X'), rich_story('Y'))), ('replace',)
     for mdbody in ('<roSlug>z &amp; z</roSlug>', '<roChannel a="1">c</roChannel><roSlug>z</roSlug>', RICH,
@@ -761,6 +773,7 @@ def search_C19(tier, rng):
                 'append': msg('StoryAppend', mid=2, new=['N'])[0], 'move': msg('EAStoryMove', mid=3, target='A', ids=['C'])[0],
                 'bad': msg('StoryReplace', mid=4, target='ZZ', new=['Q'])[0], 'roreplace': msg('RunningOrderReplace', mid=5, new=['A', 'B'])[0].replace('><', '>\n <'),
                 'end': msg('RunningOrderEnd', mid=9)[0], 'send': msg('StorySend', mid=6, target='A')[0], 'swap': msg('EAItemSwap', mid=7, story='A', ids=['1', '2'])[0]}
+        docs['append_cr'] = msg('StoryAppend', mid=8, new=['CR'])[0].replace('slug CR', 'line one&#13;&#10;line two&#13;')
         for k, d in docs.items():
             files[k] = os.path.join(tmp, k + '.mos.xml')
             open(files[k], 'w').write(d)
@@ -810,6 +823,7 @@ def search_C19(tier, rng):
                 'invalid': ['append', 'end'], 'unreadable': ['ro', 'missing', 'end'], 'after_end': ['ro', 'end', 'roreplace']}
         sets['after_end'] = ['ro', 'append', 'end']
         sets['listed_twice'] = ['ro', 'append', 'append', 'end', 'ro']
+        sets['carriage_return'] = ['ro', 'append_cr', 'end']        # text holding U+000D: the written file is still str(collection)
         for sname, lst in sets.items():
             for inc, ns, of in _it.product((False, True), (False, True), (False, True)):
                 outp = os.path.join(tmp, 'out.xml')
@@ -835,7 +849,7 @@ def search_C19(tier, rng):
                 if code not in (None, 0):
                     fail('successful merge returned %r (stderr %s)' % (code, err[:80]), argv)
                 elif of:
-                    if not os.path.exists(outp) or open(outp).read() != exp_str:
+                    if not os.path.exists(outp) or open(outp, newline='').read() != exp_str:
                         fail('file written by -o differs from the serialisation of the merged collection', argv)
                 elif exp_str not in out or out.strip() != exp_str.strip():
                     fail('stdout of merge differs from the serialisation of the merged collection', argv)
